@@ -382,29 +382,38 @@ Fixpoint hints_ok (v : sval) : bool :=
   | _ => true
   end.
 
-(* a property of every float token / every string / every char reached by the value serializer
-   (map keys included) *)
+(* a property of every float token / every string / every char the serializer is handed,
+   map keys, field names and variant names included *)
+Definition all_of {A} (P : A -> Prop) (l : list A) : Prop :=
+  fold_right (fun a acc => P a /\ acc) True l.
+
 Section Forall_sval.
-Variables (Pf : list byte -> bool) (Ps : list byte -> bool) (Pc : N -> bool).
-Definition fval_all (f : fval) : bool := match f with FFinite tok => Pf tok | FNonFinite => true end.
-Fixpoint sval_all (v : sval) : bool :=
+Variables (Pf : list byte -> Prop) (Ps : list byte -> Prop) (Pc : N -> Prop).
+Definition fval_All (f : fval) : Prop := match f with FFinite tok => Pf tok | FNonFinite => True end.
+Fixpoint sval_All (v : sval) : Prop :=
   match v with
-  | SF32 f | SF64 f => fval_all f
+  | SF32 f | SF64 f => fval_All f
   | SChar c => Pc c
   | SStr s => Ps s
   | SUnitVariant _ _ variant => Ps variant
-  | SSome x | SNewtypeStruct _ x => sval_all x
-  | SNewtypeVariant _ _ variant x => Ps variant && sval_all x
-  | SSeq _ es | STuple _ es | STupleStruct _ _ es => forallb sval_all es
-  | STupleVariant _ _ variant _ es => Ps variant && forallb sval_all es
-  | SMap _ kvs => forallb (fun kv => sval_all (fst kv) && sval_all (snd kv)) kvs
-  | SStruct _ _ fs => forallb (fun kv => Ps (fst kv) && sval_all (snd kv)) fs
+  | SSome x | SNewtypeStruct _ x => sval_All x
+  | SNewtypeVariant _ _ variant x => Ps variant /\ sval_All x
+  | SSeq _ es | STuple _ es | STupleStruct _ _ es => all_of sval_All es
+  | STupleVariant _ _ variant _ es => Ps variant /\ all_of sval_All es
+  | SMap _ kvs => all_of (fun kv => sval_All (fst kv) /\ sval_All (snd kv)) kvs
+  | SStruct _ _ fs => all_of (fun kv => Ps (fst kv) /\ sval_All (snd kv)) fs
   | SStructVariant _ _ variant _ fs =>
-      Ps variant && forallb (fun kv => Ps (fst kv) && sval_all (snd kv)) fs
-  | _ => true
+      Ps variant /\ all_of (fun kv => Ps (fst kv) /\ sval_All (snd kv)) fs
+  | _ => True
   end.
 End Forall_sval.
 
 (* ryu's contract: the text of a finite float is a JSON number *)
-Definition floats_ok (v : sval) : bool :=
-  sval_all is_jnumber (fun _ => true) (fun _ => true) v.
+Definition floats_ok (v : sval) : Prop :=
+  sval_All (fun tok => is_jnumber tok = true) (fun _ => True) (fun _ => True) v.
+(* the weaker fact the clean-bytes theorem needs: no control byte in a float's text *)
+Definition floats_clean (v : sval) : Prop :=
+  sval_All (Forall (fun b => 32 <= b)) (fun _ => True) (fun _ => True) v.
+(* every &str handed to the serializer is UTF-8 (true of any Rust &str), every char is a Unicode
+   scalar value (true of any Rust char), float texts are UTF-8 (they are ASCII) *)
+Definition text_utf8 (v : sval) : Prop := sval_All utf8 utf8 is_scalar v.
